@@ -72,6 +72,7 @@ def run_property(prop, tier, seed, jobs, only=None):
     solver_s = 0.0
     by_solver = {}
     proof_broken = []
+    n_kf_obl = 0
     for r in results:
         errors.extend(r['errors'])
         fatal = r.get('fatal')
@@ -89,6 +90,11 @@ def run_property(prop, tier, seed, jobs, only=None):
             if o['verdict'] in ('unsat',):
                 n_dis += 1
                 by_solver[o['solver']] = by_solver.get(o['solver'], 0) + 1
+            elif o['verdict'] == 'unsat-outside-known-regions':
+                # decided form of the obligation: requires and not region ==> clause (DESIGN §3)
+                n_dis += 1
+                n_kf_obl += 1
+                by_solver['outside-known-region'] = by_solver.get('outside-known-region', 0) + 1
             solver_s += o['seconds']
             if len(samples) < 12:
                 samples.append(dict(obligation=o['name'], kind=o['kind'], verdict=o['verdict'],
@@ -195,6 +201,7 @@ def run_property(prop, tier, seed, jobs, only=None):
         solver_seconds=round(solver_s, 2),
         undecided=[u['name'] for u in undecided],
         known_findings=sorted(known_hit),
+        obligations_discharged_only_outside_known_finding_regions=n_kf_obl,
         bounded=b_desc,
         samples=samples or [dict(note='no proof obligations in this run')],
         exhaustive=False,
@@ -226,7 +233,8 @@ def replay_known(k, reg, mods):
                 if st.name == k['stage']:
                     return st.witness_fails(k)
         raise KeyError(k['stage'])
-    con = next(c for c in reg if c.name == k['contract'])
+    site = k['sites'][0]
+    con = next(c for c in reg if c.name == site['contract'])
     cargs = codec.dec(k['witness'])
     nat = C.native_check(con, cargs, None)
-    return bool(nat['pre'] and k['clause'] in nat['failed'])
+    return bool(nat['pre'] and site['clause'] in nat['failed'])
